@@ -274,6 +274,16 @@ def run(ctx):
     # membership answers come from the flattened set (shared with C09-R6)
     from .c09 import membership_for
     membership_for(ctx, ctx.prog, ci, "C08-R13")
+    # membership is answered for every finite position, the poles included:
+    # the only positions forced to False are the non-finite ones, decided
+    # per position (rule shared with C09-R3 / C10-R8)
+    from .c09 import nonfinite_rule
+    ctx.rule("C08-R17", "sky_within agrees with the pixel set at every "
+             "finite position: only non-finite coordinates are forced to "
+             "False (mask = not all-finite along axis 1, no other writer of "
+             "the mask, e.g. a colatitude range test that excludes the "
+             "poles)")
+    nonfinite_rule(ctx, ctx.prog, ci, "C08-R17")
     # pixel identifiers are valid for the level they are stored under: the
     # shape builders query at 2**depth (shared with C09-R1)
     from .c09 import query_rule
@@ -1607,7 +1617,8 @@ def r11_add(ctx, ci):
             pm[ch] = x
     for st in walk_no_nested(fi.node):
         if isinstance(st, ast.Assign) and any(
-                levelset_owner(t, al) for t in st.targets):
+                isinstance(t, ast.Subscript) and levelset_owner(t, al)
+                for t in st.targets):
             par = pm.get(st)
             guarded = isinstance(par, ast.If) and st in par.body and \
                 isinstance(par.test, ast.Compare) and \
